@@ -3,7 +3,7 @@
 set -u
 patch=$1; id=$2; tier=${3:-quick}
 cd /repo && git apply "$patch" || { echo "patch does not apply"; exit 3; }
-cd /verif && ./check "$id" "$tier" 2>&1 | grep -E "^(VIOLATION|KNOWN-FINDING|OK|INCONCLUSIVE|  signature)" | cut -c1-300 | head -20
+cd /verif && timeout 2400 ./check "$id" "$tier" 2>&1 | grep -E "^(VIOLATION|KNOWN-FINDING|OK|INCONCLUSIVE|  signature)" | cut -c1-300 | head -20
 code=${PIPESTATUS[0]}
 cd /repo && git checkout -- . 
 echo "exit=$code"
